@@ -1,0 +1,21 @@
+//go:build verif
+
+package xmpp
+
+// Accessors used by the verification harness in /verif (build tag `verif` only).
+// They add no behaviour: each one forwards to unexported code of this package.
+
+import "time"
+
+// VerifEnsurePort exposes ensurePort.
+func VerifEnsurePort(addr string, port int) string { return ensurePort(addr, port) }
+
+// VerifBackoff wraps the unexported backoff type.
+type VerifBackoff struct{ b backoff }
+
+func NewVerifBackoff(base, factor, cap int, noJitter bool) *VerifBackoff {
+	return &VerifBackoff{b: backoff{NoJitter: noJitter, Base: base, Factor: factor, Cap: cap}}
+}
+func (v *VerifBackoff) Duration() time.Duration                  { return v.b.duration() }
+func (v *VerifBackoff) DurationForAttempt(n int) time.Duration { return v.b.durationForAttempt(n) }
+func (v *VerifBackoff) Reset()                                 { v.b.reset() }
